@@ -112,6 +112,13 @@ def run(tier: str, rep: Report):
         where = parts[3] if parts[0] == "t" and len(parts) > 3 else parts[-1]
         return f"{PID}/{'+'.join(sorted(set(c.split('.', 1)[1] for c in clauses)))}/{parts[0]}/{where}"
 
+    def corrupt(e):
+        if e.get("kind") != "doc" or e.get("broken") or e.get("to_exc") or e["tree"][0] != "o":
+            return None
+        e["tree"][1].append(["leak", ["x", "tuple"]])      # a non-JSON value inside the document
+        return e
+
+    df.negative_control(rep, files, "Trace_Json", corrupt, ("P07.plain",), keep_first_line=True)
     df.classify(rep, fails, ("P07.",), PID, keyfn)
 
 
